@@ -26,7 +26,10 @@ if [ -s "$PATCH" ]; then
   git -C "$WT" apply "$PATCH" || { echo "patch does not apply" > "$OUT/apply.err"; exit 4; }
 fi
 mkdir -p "$VC"
-rsync -a --exclude .git --exclude '.cache/fs' --exclude '.cache/c17' --exclude '.cache/cases*' /verif/ "$VC"/
+# copy under the locks that the checks hold while they write compiled files (a copy taken in the middle of a Coq or cargo
+# build of another run would hold inconsistent .vo files)
+mkdir -p /verif/.cache
+flock /verif/.cache/coq.lock flock /verif/.cache/cargo.lock rsync -a --exclude .git --exclude '.cache/fs' --exclude '.cache/c17' --exclude '.cache/cases*' /verif/ "$VC"/
 rm -rf "$VC/replays"; mkdir -p "$VC/replays"
 for C in "$@"; do
   unshare -m bash -c "mount --bind $WT /repo && mount --bind $VC /verif && cd /verif && rm -f evidence/$C.json && timeout 3600 ./check $C --tier $TIER" > "$OUT/$C.log" 2>&1
